@@ -423,7 +423,26 @@ pub fn check(case: &Case, obs: &mut Obs) -> CaseResult {
         if let Err(p) = built {
             return fail(panic_sig(case.unit, &p), format!("TZ={:?}: building/printing a trigger with interval {:?} panicked: {}", case.zone, lit, p));
         }
-        obs.class("unrepresentable-interval(no-panic+future-only)");
+        // an interval of n units cannot elapse much before n - 1 units have passed (minus the enclosing period
+        // for modulated schedules); what chrono cannot represent must be scheduled "never" (far future)
+        let unit_lower: i128 = match case.unit {
+            Unit::Second => 1,
+            Unit::Minute => 60,
+            Unit::Hour => 3600,
+            Unit::Day => 86_400,
+            Unit::Week => 604_800,
+            Unit::Month => 28 * 86_400,
+            Unit::Year => 365 * 86_400,
+        };
+        let far: i128 = 250_000 * 365 * 86_400;
+        let bound = ((case.n as i128 - 1) * unit_lower).min(far) - 400 * 86_400;
+        let ahead = res.timestamp() as i128 - case.unix as i128;
+        ensure!(
+            ahead >= bound,
+            format!("C16:extreme-too-early:{:?}", case.unit),
+            "TZ={:?}: next({}, {:?} x{}, modulate={}) = {}: only {} s ahead, an interval of that length cannot elapse before {} s", case.zone, now, case.unit, case.n, case.modulate, res, ahead, bound
+        );
+        obs.class("unrepresentable-interval(no-panic+future+not-early)");
         obs.nontrivial = true;
         return Ok(());
     }
@@ -495,6 +514,11 @@ pub fn extreme_strategy(zone: String) -> impl Strategy<Value = Case> {
             i64::MAX / 1_000_000_000,
             i64::MAX / 1000,
             i64::MAX,
+            (1i64 << 32) + 1,
+            (1i64 << 32) + 5,
+            (1i64 << 33) + 12,
+            (1i64 << 40) + 3,
+            (1i64 << 32) + 60,
             100_000,
             262_000,
             300_000,
@@ -706,7 +730,155 @@ pub fn zone_for_worker(run: &Run) -> Option<&'static str> {
     Some(z)
 }
 
+// ---- layer 4: the real clock across a real offset change ---------------------------------------------------
+
+/// A zone whose daylight-saving time (standard time + `shift_s`) begins `lead_s` seconds after the case starts;
+/// the trigger ("`n` `unit` + modulate", n dividing 60) runs on the real clock, no override.
+#[derive(Serialize, Deserialize, Debug, Clone)]
+pub struct RealClock {
+    pub lead_s: u32,
+    pub shift_s: u32,
+    /// "seconds" or "minutes"
+    pub unit: String,
+    pub n: u32,
+}
+
+#[derive(Serialize, Deserialize, Debug, Clone)]
+pub struct RealClockChild {
+    pub case: RealClock,
+    pub switch: i64,
+    pub tz: String,
+}
+
+fn unix_now() -> i64 {
+    std::time::SystemTime::now().duration_since(std::time::UNIX_EPOCH).unwrap().as_secs() as i64
+}
+
+pub fn real_clock_strategy(minutes: bool) -> impl Strategy<Value = RealClock> {
+    prop_oneof![
+        4 => (prop::sample::select(vec![7u32, 13, 31, 3607]), prop::sample::select(vec![5u32, 10, 15])).prop_map(|(shift_s, n)| RealClock { lead_s: 2, shift_s, unit: "seconds".into(), n }),
+        if minutes { 1 } else { 0 } => (prop::sample::select(vec![60 * 7u32, 60 * 13, 60 * 37, 60 * 23]), prop::sample::select(vec![5u32, 10, 15])).prop_map(|(shift_s, n)| RealClock { lead_s: 2, shift_s, unit: "minutes".into(), n }),
+    ]
+}
+
+/// Parent side: places the switch relative to the wall clock and runs the scenario in a child with that TZ.
+pub fn check_real_clock(tmp: &Path, case: &RealClock, obs: &mut Obs) -> CaseResult {
+    let start = unix_now();
+    let switch = start + case.lead_s as i64;
+    let (y, _, _) = civil_from_days(start.div_euclid(86_400));
+    let day0 = start.div_euclid(86_400) - days_from_civil(y, 1, 1); // zero-based day of the year, 29 February counted
+    let tod = switch - start.div_euclid(86_400) * 86_400; // may reach 24:00:0x, which the rule syntax allows
+    let sh = case.shift_s;
+    let tz = format!("AAA0BBB-{}:{:02}:{:02},{}/{}:{:02}:{:02},{}/2", sh / 3600, sh / 60 % 60, sh % 60, day0, tod / 3600, tod / 60 % 60, tod % 60, (day0 + 180) % 365);
+    let child = RealClockChild { case: case.clone(), switch, tz: tz.clone() };
+    let out = call_child(tmp, "c16real", &child, &[("TZ", tz), ("LV_KEEP_TZ", "1".to_string())], std::time::Duration::from_secs(200));
+    absorb(out, obs)
+}
+
+/// Child side (TZ already in place).
+pub fn real_clock_child(c: &RealClockChild, obs: &mut Obs) -> CaseResult {
+    let dir = std::env::temp_dir().join(format!("lv-c16real-{}", std::process::id()));
+    std::fs::create_dir_all(&dir).unwrap();
+    let r = real_clock_in(&dir, c, obs);
+    let _ = std::fs::remove_dir_all(&dir);
+    r
+}
+
+fn real_clock_in(dir: &Path, c: &RealClockChild, obs: &mut Obs) -> CaseResult {
+    clock::set_now(None);
+    let (n, shift) = (c.case.n as i64, c.case.shift_s as i64);
+    let unit_s: i64 = if c.case.unit == "minutes" { 60 } else { 1 };
+    if unix_now() >= c.switch {
+        obs.class("real-clock:started-after-the-switch(inconclusive)");
+        return Ok(());
+    }
+    let cfg = || -> TimeTriggerConfig { serde_json::from_value(serde_json::json!({"interval": format!("{} {}", n, c.case.unit), "modulate": true})).unwrap() };
+    // on a unit boundary that is a multiple of n within the enclosing minute/hour, in local time under `off`
+    let lawful = |t: i64, off: i64| -> bool {
+        let l = t + off;
+        if unit_s == 1 { l.rem_euclid(60) % n == 0 } else { l.rem_euclid(60) == 0 && l.div_euclid(60).rem_euclid(60) % n == 0 }
+    };
+    // before the switch: a trigger is created and consulted once (a long-running process has done this for hours)
+    let trig_a = match catch(|| TimeTrigger::new(cfg())) {
+        Ok(t) => Arc::new(t),
+        Err(p) => return fail("C16:panic:real-clock", format!("TZ={:?}: TimeTrigger::new panicked: {}", c.tz, p)),
+    };
+    let fired = Arc::new(Mutex::new(vec![]));
+    let app = build_appender(&dir.join("a.log"), true, &None, Box::new(TrigProbe { trigger: trig_a.clone(), fired: fired.clone() })).map_err(|e| Failure { sig: "C16:build".into(), msg: e.to_string() })?;
+    let _ = catch(|| append_msg(&app, "x"));
+    let now = unix_now();
+    let next_a = trig_a.verif_next_roll_time().timestamp();
+    if now < c.switch {
+        ensure!(next_a > now - 1, "C16:not-future", "TZ={:?}: scheduled {} at {} (real clock)", c.tz, next_a, now);
+        if next_a < c.switch {
+            ensure!(lawful(next_a, 0), "C16:real-clock-schedule", "TZ={:?} before the switch: {} {} + modulate scheduled unix {} at unix {}: not a multiple of {} in local time (offset 0)", c.tz, n, c.case.unit, next_a, now, n);
+        }
+    }
+    // the zone switches while the process keeps running; wait until the current unit began after the switch
+    loop {
+        let t = unix_now();
+        let unit_start = (t + shift).div_euclid(unit_s) * unit_s - shift;
+        if t >= c.switch + 2 && unit_start > c.switch {
+            break;
+        }
+        std::thread::sleep(std::time::Duration::from_millis(50));
+    }
+    obs.sub_evals += 1;
+    // a trigger created now: no offset change between now and its first roll time
+    let t_before = unix_now();
+    let trig_b = match catch(|| TimeTrigger::new(cfg())) {
+        Ok(t) => t,
+        Err(p) => return fail("C16:panic:real-clock", format!("TZ={:?}: TimeTrigger::new after the switch panicked: {}", c.tz, p)),
+    };
+    let t_after = unix_now();
+    let next_b = trig_b.verif_next_roll_time().timestamp();
+    ensure!(
+        next_b > t_before && next_b <= t_after + n * unit_s && lawful(next_b, shift),
+        "C16:real-clock-schedule",
+        "TZ={:?}, switch at unix {} (offset 0 -> +{} s): a trigger '{} {}' + modulate created at unix {} (real clock, after the switch) is scheduled for unix {}: local time then is {} s into the hour, not the next multiple of {} {}", c.tz, c.switch, shift, n, c.case.unit, t_before, next_b, (next_b + shift).rem_euclid(3600), n, c.case.unit
+    );
+    // the trigger that has been running since before the switch: its next consultation at/after the scheduled
+    // instant fires and reschedules from "now"
+    if next_a - unix_now() > 20 {
+        // (minute units: the old schedule may be a quarter of an hour away)
+        obs.nontrivial = true;
+        obs.class(format!("real-clock:shift={}s,unit={},created-after-switch-only", shift, c.case.unit));
+        return Ok(());
+    }
+    while unix_now() < next_a.max(c.switch + 2) {
+        std::thread::sleep(std::time::Duration::from_millis(50));
+    }
+    fired.lock().unwrap().clear();
+    let t_before = unix_now();
+    if let Err(p) = catch(|| append_msg(&app, "y")) {
+        return fail("C16:panic:real-clock", format!("TZ={:?}: append after the switch panicked: {}", c.tz, p));
+    }
+    let t_after = unix_now();
+    let f = fired.lock().unwrap().clone();
+    ensure!(f == vec![Ok(true)], "C16:fires", "TZ={:?}: the trigger scheduled for unix {} was consulted at unix {} and answered {:?}", c.tz, next_a, t_before, f);
+    let next_a2 = trig_a.verif_next_roll_time().timestamp();
+    ensure!(
+        next_a2 > t_before && next_a2 <= t_after + n * unit_s && lawful(next_a2, shift),
+        "C16:real-clock-schedule",
+        "TZ={:?}, switch at unix {} (offset 0 -> +{} s): a trigger '{} {}' + modulate running since before the switch fired at unix {} and rescheduled to unix {}: local time then is {} s into the hour, not the next multiple of {} {}", c.tz, c.switch, shift, n, c.case.unit, t_before, next_a2, (next_a2 + shift).rem_euclid(3600), n, c.case.unit
+    );
+    obs.sub_evals += 2;
+    obs.nontrivial = true;
+    obs.class(format!("real-clock:shift={}s,unit={}", shift, c.case.unit));
+    Ok(())
+}
+
 pub fn run(run: &Run) {
+    // the last worker runs the real-clock scenarios (each in a child with its own TZ rule)
+    if run.worker.0 + 1 == run.worker.1 {
+        let t = run.tmp.clone();
+        let f = move |c: &RealClock, o: &mut Obs| check_real_clock(&t, c, o);
+        run.run_replays::<RealClock>("real-clock", &f);
+        // (search() hands each worker 1/W of the count)
+        let (want, w, sc) = (run.tier.pick(1, 6), run.worker.1 as u64, run.scale.max(1));
+        run.search("real-clock", (want * w + sc - 1) / sc, real_clock_strategy(run.tier.pick(0, 1) == 1), &f);
+        return;
+    }
     // worker k studies zone k; TZ must be in place before chrono is first used in this process
     let Some(zone) = zone_for_worker(run) else {
         run.note("worker without a zone (named zone data absent): nothing to do");
@@ -796,7 +968,7 @@ pub fn replay(part: &str, case: serde_json::Value) -> Option<CaseResult> {
 pub fn meta() -> EvidenceMeta {
     EvidenceMeta {
         level: "exploration",
-        rule: "one worker process per zone (UTC, two fixed offsets, five POSIX-rule DST zones incl. 30-minute and midnight transitions; thorough adds eight named zones). Layer 1 (schedule function via the guarded wrapper): instants constructed around a feature (second/minute/hour/day/ISO-week/month/year boundary, Feb 28/29, Dec 31, ISO week 53, every DST transition of the zone in a generated year 1970-2100, 9% uniform) with offsets of -2..+2 s (sometimes +-1 h) and sub-second parts 0/1/999999999/random, all seven units, n in 1..60 dense and a sparse set up to 10 000, modulate on/off; oracle: no panic, result strictly after now, and wherever chrono reports a constant UTC offset over [start of the current unit, result] the result in local wall-clock seconds equals the reference computed with the harness's own proleptic-Gregorian arithmetic (days-from-civil, ISO weeks from first principles): start of unit + n units, or with modulation either reading of 'next multiple of n counted from the start of the enclosing period' (wrap at the period end, or run past it). Part extreme: multipliers from 100 000 to i64::MAX (no-panic and future only). Layer 2 (trigger object, clock override): non-decreasing arrival sequences (bursts, gaps of seconds to a year): fires iff now >= scheduled, reschedules strictly into the future inside [next boundary, + max_random_delay), schedule unchanged between firings. Layer 3: RollingFileAppender + TimeTrigger + fixed window under the driven clock: the first record at/after the boundary is the first record of the new file. non-trivial = within 2 s of a unit boundary, or leap-day/year-end/week-53 feature, or within 1 h of a DST transition (layer 1); >= 2 firings (layer 2); >= 2 rotations (layer 3)".into(),
+        rule: "one worker process per zone (UTC, two fixed offsets, five POSIX-rule DST zones incl. 30-minute and midnight transitions; thorough adds eight named zones). Layer 1 (schedule function via the guarded wrapper): instants constructed around a feature (second/minute/hour/day/ISO-week/month/year boundary, Feb 28/29, Dec 31, ISO week 53, every DST transition of the zone in a generated year 1970-2100, 9% uniform) with offsets of -2..+2 s (sometimes +-1 h) and sub-second parts 0/1/999999999/random, all seven units, n in 1..60 dense and a sparse set up to 10 000, modulate on/off; oracle: no panic, result strictly after now, and wherever chrono reports a constant UTC offset over [start of the current unit, result] the result in local wall-clock seconds equals the reference computed with the harness's own proleptic-Gregorian arithmetic (days-from-civil, ISO weeks from first principles): start of unit + n units, or with modulation either reading of 'next multiple of n counted from the start of the enclosing period' (wrap at the period end, or run past it). Part extreme: multipliers from 100 000 to i64::MAX (no-panic and future only). Layer 2 (trigger object, clock override): non-decreasing arrival sequences (bursts, gaps of seconds to a year): fires iff now >= scheduled, reschedules strictly into the future inside [next boundary, + max_random_delay), schedule unchanged between firings. Layer 3: RollingFileAppender + TimeTrigger + fixed window under the driven clock: the first record at/after the boundary is the first record of the new file. Layer 4 (real clock, no override; one child process per case): TZ is a POSIX rule whose daylight-saving time (+7 s ... +1 h) begins two seconds after the case starts; a trigger 'n seconds|minutes + modulate' (n | 60) created after the switch, and one that has been running since before it, must schedule the next multiple of n in local time under the offset now in force. non-trivial = within 2 s of a unit boundary, or leap-day/year-end/week-53 feature, or within 1 h of a DST transition (layer 1); >= 2 firings (layer 2); >= 2 rotations (layer 3)".into(),
         assumptions: vec![
             "UTC offsets are taken from chrono (precondition 'offset does not change in between' and construction of instants); the schedule reference itself uses no chrono".into(),
             "modulate: both readings accepted where they differ (the statement's wording admits both)".into(),
